@@ -151,5 +151,10 @@ theorem iso_quad_pos {kap mu e0 e1 e2 e3 e4 e5 : K} (hK : 0 < kap) (hG : 0 < mu)
   · have : 0 < kap * (e0 + e1 + e2) ^ 2 := mul_pos hK (by positivity)
     linarith
 
+/-- the decision of `isIsotropic` when the first radicand vanishes; `sqrt` is uninterpreted -/
+theorem sqrt_zero_div_lt (fn : Fns K) {x y eps : K} (hs : fn.sqrt 0 = 0) (he : 0 < eps) (hx : x = 0) :
+    fn.sqrt x / y < eps := by
+  rw [hx, hs, zero_div]; exact he
+
 end order
 end TfelVerif.C21
